@@ -479,8 +479,11 @@ class Evaluator:
         self_ty = None
         if item.get("parent") and item.get("parent_kind", "").startswith("Impl"):
             pit = self.items.get(item["parent"])
-            if pit:
+            if pit and "self_ty" in pit[1]:
                 self_ty = self.render(pit[0], pit[1]["self_ty"], subst)
+            elif pit:
+                # an inherent impl shares its id with the type it is for (`impl NEWLINE { fn helper .. }`): the type's path is Self
+                self_ty = item["parent"]
         self.inlined.append(target_id)
         cenv = Env(c, subst, self_ty, target_id, env.depth + 1, k)
         st2 = dict(st)
@@ -1221,6 +1224,12 @@ class Evaluator:
             return {"n": "leaf", "kind": "panic", "val": ("lit", name)}
         if name == "unwrap_or":
             return k(r[1] if rt == "some" else vs[1], st)
+        if name == "or":          # the argument has been evaluated already (eagerly, as in Rust)
+            return k(r if rt == "some" else vs[1], st)
+        if name == "or_else":
+            if rt == "some":
+                return k(r, st)
+            return self.apply(vs[1], [], st, env, k, loc)
         return None
 
     def rule_label(self, v):
